@@ -14,7 +14,7 @@ package main
 //                                        claimed keys in claim order
 //        shiftmatch IDX ORD N FT TT      Gateway.ShiftMatchingTreasures without filters (IDX a key/time index)
 //        q IDX ORD FROM LIMIT FT TT VIA  Gateway.GetByIndex (VIA=u) or GetByIndexStream without
-//                                        filters (VIA=s); IDX ∈ key|created|updated|expire|<value type>;
+//                                        filters (VIA=s) or GetByIndexStreamFromMany with one query (VIA=m); IDX ∈ key|created|updated|expire|<value type>;
 //                                        ORD ∈ asc|desc; FT/TT nanoseconds or '-'
 // reply: ok | err                        for set / del
 //        r k1,k2,…  | err | nilnil       for q: the keys exactly in the order the gateway returned them
@@ -25,6 +25,7 @@ import (
 	"bufio"
 	"context"
 	"fmt"
+	"math/big"
 	"math/rand"
 	"os"
 	"strconv"
@@ -156,6 +157,8 @@ func c07GenQuery(rng *rand.Rand, w *bufio.Writer, idx string) {
 	from := 0
 	if rng.Intn(3) == 0 {
 		from = rng.Intn(6)
+	} else if rng.Intn(20) == 0 {
+		from = -1 - rng.Intn(3) // a negative offset reads from the start
 	}
 	limit := 0
 	if rng.Intn(2) == 0 {
@@ -170,7 +173,17 @@ func c07GenQuery(rng *rand.Rand, w *bufio.Writer, idx string) {
 			tt = strconv.FormatInt(int64(1+rng.Intn(11))*1000000000+c07Nanos[rng.Intn(len(c07Nanos))], 10)
 		}
 	}
-	via := []string{"u", "s"}[rng.Intn(2)]
+	if rng.Intn(8) == 0 {
+		// bounds that int64 nanoseconds cannot hold (year 0001, just below MinInt64; just above MaxInt64,
+		// year 9999), and one far bound that they can (year 2200)
+		if rng.Intn(2) == 0 {
+			ft = []string{"-62135596800000000000", "-9223372036854775809", "253402300799000000000"}[rng.Intn(3)]
+		}
+		if rng.Intn(3) != 0 {
+			tt = []string{"253402300799000000000", "9223372036854775808", "7258118400000000000", "-62135596800000000000"}[rng.Intn(4)]
+		}
+	}
+	via := []string{"u", "s", "m"}[rng.Intn(3)]
 	fmt.Fprintf(w, "q %s %s %d %d %s %s %s\n", idx, ord, from, limit, ft, tt, via)
 }
 
@@ -195,7 +208,7 @@ func c07Gen(rng *rand.Rand, tier string, w *bufio.Writer) {
 	// 7: value index built for one type, asked for another
 	fmt.Fprintln(w, "case 7\nset k1 i64 1 0 0 0\nset k2 i64 2 0 0 0\nq i64 asc 0 0 - - u\nset k3 str 0 0 0 0\nq str asc 0 0 - - u")
 	// 8: windows, paging, ties on a sound index
-	fmt.Fprintln(w, "case 8\nset k1 i64 1 3 0 0\nset k2 i64 2 3 0 0\nset k3 i64 3 5 0 0\nset k4 i64 3 7 0 0\nq created asc 0 0 3 7 u\nq created desc 0 0 3 7 u\nq created asc 1 2 - 8 u\nq created desc 1 1 4 - s\nq created asc 0 0 7 3 u\nq key desc 1 2 - - u\nq expire asc 0 0 - - u")
+	fmt.Fprintln(w, "case 8\nset k1 i64 1 3 0 0\nset k2 i64 2 3 0 0\nset k3 i64 3 5 0 0\nset k4 i64 3 7 0 0\nq created asc 0 0 3 7 u\nq created desc 0 0 3 7 m\nq created asc 0 0 3 7 m\nq created desc 0 0 3 7 u\nq created asc 1 2 - 8 u\nq created desc 1 1 4 - s\nq created asc 0 0 7 3 u\nq key desc 1 2 - - u\nq expire asc 0 0 - - u")
 
 	// 9: sub-second parts decide: records at 3s, 3s+1ns, 3s+999999999ns, 4s; windows on those instants
 	fmt.Fprintln(w, "case 9\nset k1 i64 1 3000000000 0 0\nset k2 i64 2 3000000001 0 0\nset k3 i64 3 3999999999 0 0\nset k4 i64 4 4000000000 0 0\nset k5 i64 5 3000000000 0 0\nq created asc 0 0 3000000001 4000000000 u\nq created desc 0 0 3000000000 3999999999 u\nq created asc 0 0 3000000000 3000000001 s\nq created desc 0 0 3999999999 - u\nq created asc 0 0 - 3000000001 u")
@@ -210,7 +223,18 @@ func c07Gen(rng *rand.Rand, tier string, w *bufio.Writer) {
 	fmt.Fprintln(w, "case 13p\nset e1 bytes 0 0 0 2000000000\nset e2 bytes 0 0 0 3000000000\nset e3 i64 97 0 0 1000000000\nset f1 bytes 0 0 0 0\nreload\npatchexp -\nq expire asc 0 0 - - u\nq expire desc 0 0 - - u\npatchexp -\nreload\npatchexp 6000000000\nq expire asc 0 0 - - u\nreload\npatchexp clear\nq expire asc 0 0 - - u\nq expire desc 0 0 - - u\nshiftexp\nq key asc 0 0 - - u")
 	// 14: ShiftMatching: first N of the key index, a window of a time index, everything
 	fmt.Fprintln(w, "case 14\nset k1 i64 97 1000000000 5000000000 0\nset k2 i64 98 2000000000 4000000000 3000000000\nset k3 str 1 3000000000 3000000000 0\nset k4 bytes 2 3000000000 0 1000000000\nset k5 i64 99 0 2000000000 0\nq created asc 0 0 - - u\nq key desc 0 0 - - u\nshiftmatch key desc 2 - -\nq key asc 0 0 - - u\nq created desc 0 0 - - u\nshiftmatch created asc 0 2000000000 3000000001\nq created asc 0 0 - - u\nq updated asc 0 0 - - u\nshiftmatch updated desc 0 - -\nq key asc 0 0 - - u")
-	for c := 15; c < cases; c++ {
+	// 15: window bounds outside the years 1677…2262 (valid timestamps, not representable as int64 nanoseconds)
+	fmt.Fprintln(w, "case 15\nset k1 i64 97 3000000000 3000000000 3000000000\nset k2 i64 98 5000000000 5000000000 0\nset k3 i64 99 7000000000 0 7000000000\nq created asc 0 0 - 253402300799000000000 u\nq created desc 0 0 -62135596800000000000 - s\nq created asc 0 0 4000000000 9223372036854775808 u\nq updated desc 0 0 -9223372036854775809 5000000000 u\nq created asc 0 0 253402300799000000000 - u\nq expire asc 0 0 - -62135596800000000000 u\nq expire desc 0 2 - 7258118400000000000 s\nq key asc 0 0 - 253402300799000000000 u\nshiftmatch created asc 0 4000000000 253402300799000000000\nq created asc 0 0 - - u")
+	// 16: a shift loses the claim on a record between its selection pass and its deletes (forced schedule on
+	// hook shift.selected): the record must be back in the index it was taken out of
+	fmt.Fprintln(w, "case 16\nset k0 i64 97 0 0 0\nset k1 bytes 1 1000000000 0 0\nset k2 bytes 2 2000000000 0 0\nset k3 bytes 3 0 0 0\nq key asc 0 0 - - u\nsheld key asc 0 1\nset k1 bytes 0 0 0 0\nset k4 bytes 5 0 0 0\nsrelease\nq key asc 0 0 - - u\nq key desc 0 0 - - u\nq created asc 0 0 - - u\nsheld key desc 1 0\nset k1 bytes -1 0 0 0\nsrelease\nq key desc 0 0 - - m")
+	// 17: more records than any plausible cap on a page: a full read returns all of them
+	fmt.Fprintln(w, "case 17")
+	for i := 0; i < 1100; i++ {
+		fmt.Fprintf(w, "set n%04d i64 %d %d 0 0\n", i, 96+i%9, int64(1+i%7)*1000000000)
+	}
+	fmt.Fprintln(w, "q key asc 0 0 - - u\nq key desc 1050 0 - - s\nq created asc 0 0 - - m\nq key asc 0 1090 - - u")
+	for c := 18; c < cases; c++ {
 		persistent := c%3 == 0
 		if persistent {
 			fmt.Fprintf(w, "case %dp\n", c)
@@ -311,10 +335,50 @@ func c07Gen(rng *rand.Rand, tier string, w *bufio.Writer) {
 				fmt.Fprintf(w, "inc %s %d %d\n", k, d, c07TS(rng, 60))
 			case r < 62 && persistent:
 				fmt.Fprintln(w, "reload")
+			case r >= 78 && r < 82 && bodies && len(live) > 0:
+				// a key-ordered shift for n >= V, held after its selection pass; one or two saves meanwhile
+				fmt.Fprintf(w, "sheld key %s %d %d\n", []string{"asc", "desc"}[rng.Intn(2)], rng.Intn(3), rng.Intn(5)-2)
+				for j := 0; j < 1+rng.Intn(2); j++ {
+					if k, okk := pick(); okk {
+						live[k] = true
+						delete(incSum, k)
+						fmt.Fprintf(w, "set %s bytes %d 0 0 0\n", k, c07Rank(rng, "bytes"))
+					}
+				}
+				fmt.Fprintln(w, "srelease")
+				for k := range live {
+					if persistent {
+						retired[k] = true
+					}
+					delete(live, k)
+					delete(incSum, k)
+				}
 			case r >= 66 && r < 78 && (bodies || c%5 == 0):
 				// the claim paths: patch one key / patch every expired record / shift by index
 				e := []string{"-", "-", "clear", strconv.FormatInt(c07TS(rng, 0), 10)}[rng.Intn(4)]
-				switch rng.Intn(5) {
+				switch rng.Intn(7) {
+				case 5:
+					// PatchTreasures with CreateIfNotExist
+					if k, okk := pick(); okk {
+						if !live[k] {
+							live[k] = true
+						}
+						delete(incSum, k)
+						fmt.Fprintf(w, "patchc %s %s\n", k, e)
+					}
+				case 6:
+					// ShiftByKeys: two or three names, existing or not
+					var ks []string
+					for j := 0; j < 2+rng.Intn(2); j++ {
+						k := fmt.Sprintf("k%02d", rng.Intn(nKeys))
+						ks = append(ks, k)
+						delete(live, k)
+						delete(incSum, k)
+						if persistent {
+							retired[k] = true
+						}
+					}
+					fmt.Fprintf(w, "shiftkeys %s\n", strings.Join(ks, ","))
 				case 0, 1:
 					fmt.Fprintf(w, "patch k%02d %s\n", rng.Intn(nKeys), e)
 				case 2, 3:
@@ -378,6 +442,13 @@ func (s *c07Stream) Send(r *hydrapb.GetByIndexStreamResponse) error {
 	s.keys = append(s.keys, r.GetTreasure().GetKey())
 	return nil
 }
+type c07ManyStream struct{ c07Stream }
+
+func (s *c07ManyStream) Send(r *hydrapb.GetByIndexStreamFromManyResponse) error {
+	s.keys = append(s.keys, r.GetTreasure().GetKey())
+	return nil
+}
+
 func (s *c07Stream) SetHeader(metadata.MD) error  { return nil }
 func (s *c07Stream) SendHeader(metadata.MD) error { return nil }
 func (s *c07Stream) SetTrailer(metadata.MD)       {}
@@ -396,12 +467,17 @@ func c07OptTS(s string) (*timestamppb.Timestamp, bool) {
 	if s == "-" {
 		return nil, true
 	}
-	v, err := strconv.ParseInt(s, 10, 64)
-	if err != nil {
+	// nanoseconds since the epoch, of any size (years 0001…9999 are valid protobuf timestamps, int64
+	// nanoseconds only reach 1677…2262); an explicit zero bound is a real bound, not "absent"
+	v, ok := new(big.Int).SetString(s, 10)
+	if !ok {
 		return nil, false
 	}
-	// an explicit zero bound is a real bound (the Unix epoch), not "absent"
-	return &timestamppb.Timestamp{Seconds: v / 1000000000, Nanos: int32(v % 1000000000)}, true
+	sec, ns := new(big.Int).DivMod(v, big.NewInt(1000000000), new(big.Int)) // Euclidean: 0 <= ns < 1e9
+	if !sec.IsInt64() {
+		return nil, false
+	}
+	return &timestamppb.Timestamp{Seconds: sec.Int64(), Nanos: int32(ns.Int64())}, true
 }
 
 func c07Run(in *bufio.Scanner, w *bufio.Writer) {
@@ -420,6 +496,20 @@ func c07Run(in *bufio.Scanner, w *bufio.Writer) {
 		&settings.FileSystemSettings{WriteIntervalSec: 1, MaxFileSizeByte: 8192})
 	ctx := context.Background()
 	swampName := ""
+	// a shift held between its selection pass and its deletes (op sheld), until op srelease
+	var heldRelease chan struct{}
+	var heldDone chan string
+	release := func() string {
+		if heldRelease == nil {
+			return "ok"
+		}
+		close(heldRelease)
+		out := <-heldDone
+		heldRelease, heldDone = nil, nil
+		verifhook.SetHandler(nil)
+		return out
+	}
+	defer release()
 	for in.Scan() {
 		line := in.Text()
 		f := strings.Split(line, " ")
@@ -430,7 +520,58 @@ func c07Run(in *bufio.Scanner, w *bufio.Writer) {
 				}
 			}()
 			switch {
+			case f[0] == "srelease" && len(f) == 1:
+				return release()
+			case f[0] == "sheld" && len(f) == 5:
+				// ShiftMatchingTreasures(IDX, ORD, HowMany N, filter: body field n >= V), held at hook shift.selected
+				it, ok := c07IndexType(f[1])
+				n, e1 := strconv.ParseInt(f[3], 10, 32)
+				v, e2 := strconv.ParseInt(f[4], 10, 64)
+				if !ok || e1 != nil || e2 != nil || heldRelease != nil || (f[2] != "asc" && f[2] != "desc") {
+					return "bad-op"
+				}
+				ord := hydrapb.OrderType_ASC
+				if f[2] == "desc" {
+					ord = hydrapb.OrderType_DESC
+				}
+				path := "n"
+				flt := &hydrapb.FilterGroup{Logic: hydrapb.FilterLogic_AND, Filters: []*hydrapb.TreasureFilter{{
+					Operator: hydrapb.Relational_GREATER_THAN_OR_EQUAL, BytesFieldPath: &path,
+					CompareValue: &hydrapb.TreasureFilter_Int64Val{Int64Val: v}}}}
+				var armed int32 = 1
+				reached := make(chan struct{}, 1)
+				rel := make(chan struct{})
+				verifhook.SetHandler(func(name string, args ...any) {
+					if name == "shift.selected" && atomic.CompareAndSwapInt32(&armed, 1, 0) {
+						reached <- struct{}{}
+						<-rel
+					}
+				})
+				done := make(chan string, 1)
+				go func() {
+					resp, err := rig.GW.ShiftMatchingTreasures(ctx, &hydrapb.ShiftMatchingTreasuresRequest{IslandID: 1, SwampName: swampName,
+						IndexType: it, OrderType: ord, HowMany: int32(n), Filters: flt})
+					if err != nil || resp == nil {
+						done <- "err"
+						return
+					}
+					var keys []string
+					for _, t := range resp.GetTreasures() {
+						keys = append(keys, t.GetKey())
+					}
+					done <- "r " + strings.Join(keys, ",")
+				}()
+				select {
+				case <-reached:
+					heldRelease, heldDone = rel, done
+					return "held"
+				case <-done:
+					atomic.StoreInt32(&armed, 0)
+					verifhook.SetHandler(nil)
+					return "done"
+				}
 			case f[0] == "case" && len(f) == 2:
+				release()
 				if strings.HasSuffix(f[1], "p") { // a swamp on disk, so that it can be closed and loaded again
 					swampName = name.New().Sanctuary("c07p").Realm("idx").Swamp("case" + f[1]).Get()
 				} else {
@@ -498,7 +639,7 @@ func c07Run(in *bufio.Scanner, w *bufio.Writer) {
 					select {
 					case r2 = <-second: // answered while the first reader is still inside the build
 						got = true
-					case <-time.After(60 * time.Millisecond): // it waits for the build: let the first go on
+					case <-time.After(HxScale(60 * time.Millisecond)): // it waits for the build: let the first go on
 					}
 					close(release)
 					r1 = <-first
@@ -525,7 +666,20 @@ func c07Run(in *bufio.Scanner, w *bufio.Writer) {
 					keys = append(keys, t.GetKey())
 				}
 				return "r " + strings.Join(keys, ",")
-			case (f[0] == "patch" && len(f) == 3) || (f[0] == "patchexp" && len(f) == 2):
+			case f[0] == "shiftkeys" && len(f) == 2:
+				if ok, err := rig.Zeus.GetHydra().IsExistSwamp(1, name.Load(swampName)); err != nil || !ok {
+					return "r "
+				}
+				resp, err := rig.GW.ShiftByKeys(ctx, &hydrapb.ShiftByKeysRequest{IslandID: 1, SwampName: swampName, Keys: strings.Split(f[1], ",")})
+				if err != nil || resp == nil {
+					return "r "
+				}
+				var keys []string
+				for _, t := range resp.GetTreasures() {
+					keys = append(keys, t.GetKey())
+				}
+				return "r " + strings.Join(keys, ",")
+			case (f[0] == "patch" && len(f) == 3) || (f[0] == "patchc" && len(f) == 3) || (f[0] == "patchexp" && len(f) == 2):
 				var meta *hydrapb.PatchMeta
 				switch e := f[len(f)-1]; e {
 				case "-":
@@ -541,15 +695,15 @@ func c07Run(in *bufio.Scanner, w *bufio.Writer) {
 					}
 				}
 				ops := []*hydrapb.PatchOp{{Op: hydrapb.PatchOp_INC, Path: "n", Value: c07MpInt64(1)}}
-				if ok, err := rig.Zeus.GetHydra().IsExistSwamp(1, name.Load(swampName)); err != nil || !ok {
+				if ok, err := rig.Zeus.GetHydra().IsExistSwamp(1, name.Load(swampName)); (err != nil || !ok) && f[0] != "patchc" {
 					// (PatchTreasures would summon an empty swamp into being; the case has nothing alive)
 					if f[0] == "patch" {
 						return "notfound"
 					}
 					return "r "
 				}
-				if f[0] == "patch" {
-					resp, err := rig.GW.PatchTreasures(ctx, &hydrapb.PatchTreasuresRequest{IslandID: 1, SwampName: swampName,
+				if f[0] == "patch" || f[0] == "patchc" {
+					resp, err := rig.GW.PatchTreasures(ctx, &hydrapb.PatchTreasuresRequest{IslandID: 1, SwampName: swampName, CreateIfNotExist: f[0] == "patchc",
 						Patches: []*hydrapb.TreasurePatch{{Key: f[1], Ops: ops, Meta: meta}}})
 					if err != nil {
 						return "err " + c07ErrClass(err)
@@ -560,6 +714,8 @@ func c07Run(in *bufio.Scanner, w *bufio.Writer) {
 					switch st := resp.GetResults()[0].GetStatus(); st {
 					case hydrapb.PatchResult_PATCHED:
 						return "patched"
+					case hydrapb.PatchResult_CREATED:
+						return "created"
 					case hydrapb.PatchResult_KEY_NOT_FOUND:
 						return "notfound"
 					case hydrapb.PatchResult_TYPE_MISMATCH:
@@ -650,7 +806,7 @@ func c07Run(in *bufio.Scanner, w *bufio.Writer) {
 				return "ok"
 			case f[0] == "q" && len(f) == 8:
 				it, ok := c07IndexType(f[1])
-				from, e1 := strconv.ParseInt(f[3], 10, 32)
+				from, e1 := strconv.ParseInt(f[3], 10, 32) // (may be negative: read from the start)
 				limit, e2 := strconv.ParseInt(f[4], 10, 32)
 				ft, ok1 := c07OptTS(f[5])
 				tt, ok2 := c07OptTS(f[6])
@@ -662,7 +818,17 @@ func c07Run(in *bufio.Scanner, w *bufio.Writer) {
 					ord = hydrapb.OrderType_DESC
 				}
 				var keys []string
-				if f[7] == "s" {
+				if f[7] == "m" {
+					// GetByIndexStreamFromMany with one query: a separate copy of the read path in the gateway
+					st := &c07ManyStream{c07Stream{ctx: ctx}}
+					err := rig.GW.GetByIndexStreamFromMany(&hydrapb.GetByIndexStreamFromManyRequest{Queries: []*hydrapb.SwampQuery{{
+						IslandID: 1, SwampName: swampName, IndexType: it, OrderType: ord, From: int32(from), Limit: int32(limit),
+						FromTime: ft, ToTime: tt}}}, st)
+					if err != nil {
+						return "err " + c07ErrClass(err)
+					}
+					keys = st.keys
+				} else if f[7] == "s" {
 					st := &c07Stream{ctx: ctx}
 					err := rig.GW.GetByIndexStream(&hydrapb.GetByIndexStreamRequest{IslandID: 1, SwampName: swampName,
 						IndexType: it, OrderType: ord, From: int32(from), Limit: int32(limit), FromTime: ft, ToTime: tt}, st)
